@@ -94,6 +94,7 @@ type Ctx struct {
 	viaStack  []string
 	clk0      *Term
 	curFrame  *frame
+	curExecFrame *frame
 	defAxioms map[*ssa.Function]bool
 	started   time.Time
 	trivial   int
